@@ -308,7 +308,7 @@ def run(ctx):
             det = short(v)
             ca = calls[0][1]
             same_geo = ca.get("shape_native") == (H, W) and ca.get("pixel_scales") == (s0, s1) and ca.get("origin") == (oy, ox) and isinstance(ca.get("grid_scaled_2d_slim"), Ref) and ca["grid_scaled_2d_slim"].name == "G"
-            arrs = {a[1] for a in v.all_atoms() if a[0] == "i"}
+            arrs = {a[1] for a in v.all_atoms() if a[0] == "i"} if v is not None else set()   # a value that is no polynomial (e.g. an index beyond the shape pair) fails the obligation
             if len(arrs) == 1:
                 C = arrs.pop()
                 ok = same_geo and sts[0].idx == (k,) and v in (K.to_int(E_(C, k, ZERO) * W + E_(C, k, ONE)), E_(C, k, ZERO) * W + E_(C, k, ONE)) and C.startswith("grid_pixel_centres_2d_slim_from#")   # the array returned by that routine, whatever it is called inside
